@@ -13,11 +13,12 @@ cd ..
 mkdir -p out evidence
 mv out_build.log out/build.log
 # independent re-check of the compiled theorem files (and everything they depend on) with coqchk.
-# The four modules whose proofs go through Interval's large vm_compute certificates (C03, C09, C11, C20 via
-# Proof/PoissonP.v) take hours under coqchk's evaluator and are left to `./setup.sh --coqchk-all`.
+# The four modules whose proofs go through Interval (C03, C09, C11, C20 via Proof/PoissonP.v) are re-checked with the
+# *installed* Interval and Coquelicot libraries admitted (coqchk -admit: loaded, not re-checked): re-checking those libraries'
+# own vm_compute certificates with coqchk's evaluator did not finish in 3.9 h.  Everything under theories/ is re-checked.
 CHK="MV.Thm.C01 MV.Thm.C02 MV.Thm.C04 MV.Thm.C05 MV.Thm.C06 MV.Thm.C07 MV.Thm.C08 MV.Thm.C10 MV.Thm.C12 MV.Thm.C13 MV.Thm.C14 MV.Thm.C15 MV.Thm.C16 MV.Thm.C17 MV.Thm.C18 MV.Thm.C19"
-if [ "$1" = "--coqchk-all" ]; then CHK="$CHK MV.Thm.C03 MV.Thm.C09 MV.Thm.C11 MV.Thm.C20"; fi
 ( cd coq && timeout 20000 coqchk -silent -o -Q theories MV $CHK > ../out/coqchk.log 2>&1 ) || { tail -30 out/coqchk.log; echo "coqchk failed"; exit 1; }
+( cd coq && timeout 20000 coqchk -silent -o -admit Interval.Tactic -admit Coquelicot.Coquelicot -Q theories MV MV.Thm.C03 MV.Thm.C09 MV.Thm.C11 MV.Thm.C20 > ../out/coqchk_interval.log 2>&1 ) || { tail -30 out/coqchk_interval.log; echo "coqchk (interval modules) failed"; exit 1; }
 grep -A8 "^\* Axioms" out/coqchk.log | head -12
 export PYTHONPATH=/repo:/verif/harness PYTHONHASHSEED=0
 /venv/bin/python -W ignore harness/warm.py 2>&1 | grep -v condarc
